@@ -13,7 +13,7 @@ from props import c04
 logging.disable(logging.CRITICAL)
 
 ID = "C01"
-PROOF_MODULES = ["CanopenProofs.C01", "CanopenProofs.C01ReadInto"]
+PROOF_MODULES = ["CanopenProofs.C01", "CanopenProofs.C01ReadInto", "CanopenProofs.C01Text"]
 GENERATED = ["Datatypes", "SdoConst"]
 THEOREMS = [
     "Canopen.C01.download_delivers",
@@ -23,6 +23,15 @@ THEOREMS = [
     "Canopen.C01.back_to_back",
     "Canopen.C01.client_decodes_abort",
     "Canopen.C01.readinto_rechunks",
+    "Canopen.C01.text_roundtrip",
+    "Canopen.C01.text_decode_exact",
+    "Canopen.C01.text_download_delivers",
+    "Canopen.C01.text_download_unencodable",
+    "Canopen.C01.text_upload_returns",
+    "Canopen.C01.text_download_then_upload",
+    "Canopen.C01.univNl_id",
+    "Canopen.C01.encodable_iff",
+    "Canopen.C01.encodeCp_isSome",
 ]
 FINGERPRINT = [
     "canopen.objectdictionary:ObjectDictionary.get_variable",
@@ -43,13 +52,29 @@ TRUSTED = [
     "io.BufferedWriter / BufferedReader / RawIOBase.readall assumed to obey the RawIOBase contract (theorems "
     "quantify over every caller that does; buffered modes are exercised, their raw write sizes recorded)",
     "queue.Queue modelled as a FIFO list; a time-out is 'queue empty when the client looks'",
+    "io.TextIOWrapper assumed to be what its documentation says for errors='strict', newline=None: write(str) encodes "
+    "its whole argument before handing anything over, read decodes incrementally and translates line ends; the "
+    "codecs ascii / latin-1 / utf-8 are written again in Lean (Sdo/Text.lean) and compared with Python's on every op",
 ]
 ASSUMPTIONS = ["a caller offers prefixes of the unsent remainder and advances by the count write() returns; when a "
-               "size is declared it equals the payload length (the property's 'completed download')"]
+               "size is declared it equals the payload length (the property's 'completed download')",
+               "text mode: os.linesep is '\\n' (POSIX), so newline=None changes nothing on output; on input it is "
+               "universal newlines ('\\r\\n' and '\\r' come back as '\\n' - Python's documented text-mode contract, "
+               "modelled as univNl and checked, '\\r' and '\\n' are in every generated alphabet); a text that cannot be "
+               "encoded has no payload length: such downloads declare no size or the number of bytes handed over "
+               "before the failing write(); encodings covered: ascii, latin-1, utf-8 (utf-16 through a non-seekable "
+               "stream is written without BOM by TextIOWrapper and differs from str.encode: left out)"]
 RULE = ("op seq: a sequence of transfers on one client against the strict reference server in one answer style; "
         "every payload length 0..64 (thorough 0..1100 + {4095..4105, 10000}) x declared/not x forced/not x "
         "caller chunkings (all-at-once, 1, 3, 7, 8, seeded) and buffering modes 0/2/7/8/1024 and the API; upload "
-        "styles x cut lists; dictionary entry types over every data type; non-trivial = every transfer returned ok")
+        "styles x cut lists; dictionary entry types over every data type; non-trivial = every transfer returned ok; "
+        "op txt: the same through text mode of open(): encodings ascii/latin-1/utf-8 x every text length 0..64 "
+        "(thorough + 100..10000 around TextIOWrapper's 8192 chunk) over alphabets with line ends, NUL, the borders of "
+        "each encoding, astral characters and surrogates x characters outside the encoding x split into write(str) "
+        "calls (one, per character, per line, seeded, none) x buffering 1 (line) /2/3/7/8/1024 x declared/forced; "
+        "uploads of encoded text, damaged text (every malformed UTF-8 form) and raw bytes read as read(), read(k) "
+        "loops, line iteration, read(k)+read(); write-then-read histories; non-trivial = ran to its end or was refused "
+        "by the codec")
 
 
 # ---------------------------------------------------------------------- strict reference server (Python twin)
@@ -385,6 +410,8 @@ def show_frames(fs):
 
 def run_impl(op):
     a = op.split(" ")
+    if a[0] == "txt":
+        return run_impl_txt(op)
     held = parse_held(a[1])
     style = (a[2] == "1", a[3] == "1", a[4] == "1", c04.unnl(a[5]))
     mode = a[6]
@@ -409,28 +436,14 @@ def run_impl(op):
     return f"{';'.join(results)} | {show_frames(bus.requests)} | {show_frames(bus.responses)} | {commits} | {ill}"
 
 
-def model_skips(op):
-    """an operation on which the implementation never terminates (the harness cut a spinning BufferedWriter short)
-    has no result to compare; the oracle alone reports it"""
-    a = op.split(" ")
-    if a[0] != "seq" or a[6][0] != "b" or "c" not in a[6]:
-        return False
-    for x in a[7].split(";"):
-        p = x.split(":")
-        if p[0] == "d" and p[4] == "1":
-            n = len(p[3]) // 2 if p[3] != "-" else 0
-            offers = c04.unnl(p[6])
-            if 2 <= n <= 4 and len(offers) > 12 and all(o < n for o in offers):
-                return True
-    return False
-
-
 # ---------------------------------------------------------------------- independent oracle
 NUMERIC_BYTES = {**{t: w // 8 for t, (w, _) in c04.SPEC.items()}, 0x01: 1, 0x08: 4, 0x11: 8}
 
 
 def oracle(op, out):
     a = op.split(" ")
+    if a[0] == "txt":
+        return None if out.startswith("HARNESS") else oracle_txt(op, out)
     if out.startswith("OFFERS-CHANGED") or out.startswith("SIZES-CHANGED") or out.startswith("HARNESS"):
         return None
     held = parse_held(a[1])
@@ -502,17 +515,28 @@ def signature(op, what):
 
 
 def nontrivial(op, out):
+    if op.startswith("txt "):
+        # a text transfer that ran to its end, or one the codec refused
+        return all(r.startswith("ok") or r == "err unicode" for r in out.split(" | ")[0].split(";"))
     return all(r.startswith("ok") for r in out.split(" | ")[0].split(";"))
 
 
 def classify(op, out):
     a = op.split(" ")
+    if a[0] == "txt":
+        rs = out.split(" | ")[0].split(";")
+        kinds = "".join(sorted({x[0] for x in a[8].split(";")}))
+        res = "ok" if all(r.startswith("ok") for r in rs) else ("unicode" if "err unicode" in rs else "err")
+        return f"txt:{a[6]}:{kinds}:{res}"
     kinds = "".join(sorted({x[0] for x in a[7].split(";")}))
     return f"{a[6]}:{kinds}:{'ok' if nontrivial(op, out) else 'err'}"
 
 
 def shrink_candidates(op):
     a = op.split(" ")
+    if a[0] == "txt":
+        yield from shrink_txt(op)
+        return
     xs = a[7].split(";")
     if len(xs) > 1:
         for i in range(len(xs)):
@@ -524,6 +548,275 @@ def shrink_candidates(op):
             for nb in (b[:len(b) // 2], b[:-1]):
                 q = p[:3] + [c04.hx(nb)] + p[4:]
                 yield " ".join(a[:7] + [";".join(xs[:i] + [":".join(q)] + xs[i + 1:])])
+
+
+# ---------------------------------------------------------------------- text mode of open() (op kind `txt`)
+# txt <held> <si> <ex> <es> <cuts> <encoding> <buffering>-<how> <xfer;…>
+#   D:<idx>:<sub>:<pieces>:<sized>:<force>:<offers>   download: one write(str) per piece; pieces `_` = no write at
+#       all, else texts separated by `/`, a text = `-` (empty) or hex code points separated by `.`; `sized`: the size
+#       declared is the number of bytes that reach the stream; offers = raw write sizes observed when the op was made
+#   U:<idx>:<sub>:<reads>                             upload read as <how> says (all | r<k> | lines | r<k>a);
+#       reads = `-` when the reader read to the end, else the number of raw reads after which it stopped
+TEXT_ENCODINGS = ["ascii", "latin-1", "utf-8"]
+
+
+def cps(text):
+    return ".".join(format(ord(ch), "x") for ch in text) if text else "-"
+
+
+def uncps(s):
+    return "" if s == "-" else "".join(chr(int(x, 16)) for x in s.split("."))
+
+
+def pieces_token(pieces):
+    return "/".join(cps(t) for t in pieces) if pieces else "_"
+
+
+def parse_pieces(s):
+    return [] if s == "_" else [uncps(t) for t in s.split("/")]
+
+
+def parse_txfer(s):
+    p = s.split(":")
+    if p[0] == "D":
+        return ("D", int(p[1]), int(p[2]), parse_pieces(p[3]), p[4] == "1", p[5] == "1", c04.unnl(p[6]))
+    return ("U", int(p[1]), int(p[2]), None if p[3] == "-" else int(p[3]))
+
+
+def handed_over(enc, pieces):
+    """the bytes that reach the binary stream: write(str) encodes its whole argument before it hands anything over,
+    so these are the encodings of the pieces before the first one that cannot be encoded (used for the declared size
+    only; the oracle encodes the whole text with str.encode itself)"""
+    out = b""
+    for t in pieces:
+        try:
+            out += t.encode(enc)
+        except UnicodeError:
+            break
+    return out
+
+
+def parse_tmode(mode):
+    b, how = mode.split("-")
+    return int(b), how
+
+
+def do_text_download(client, idx, sub, enc, buffering, pieces, sized, force):
+    size = len(handed_over(enc, pieces)) if sized else None
+    with client.open(idx, sub, "w", encoding=enc, buffering=buffering, size=size, force_segment=force) as fp:
+        for t in pieces:
+            fp.write(t)
+
+
+def do_text_upload(client, idx, sub, enc, buffering, how):
+    with client.open(idx, sub, "r", encoding=enc, buffering=buffering) as fp:
+        if how == "all":
+            return fp.read()
+        if how == "lines":
+            return "".join(list(fp))
+        k = int(how[1:].rstrip("a"))
+        if how.endswith("a"):
+            return fp.read(k) + fp.read()
+        out = []
+        while True:
+            d = fp.read(k)
+            if not d:
+                break
+            out.append(d)
+        return "".join(out)
+
+
+def terr_name(e):
+    if isinstance(e, UnicodeError):
+        return "err unicode"
+    return err_name(e)
+
+
+def run_txt(held, style, enc, mode, xfers):
+    """→ (results, bus, server, raw write sizes per transfer, raw reads per transfer as (count, saw the end))"""
+    server = RefServer(held, *style)
+    client = SdoClient(0x602, 0x582, make_od({}))
+    client.RESPONSE_TIMEOUT = 0.001
+    bus = Bus(client, server)
+    client.network = bus
+    buffering, how = parse_tmode(mode)
+    results, offers, reads = [], [], []
+    orig_w, orig_r = WritableStream.write, ReadableStream.read
+    seen, rseen, zeros = [], [], [0]
+
+    def rec_w(self, b):
+        seen.append(len(b))
+        n = orig_w(self, b)
+        zeros[0] = zeros[0] + 1 if n == 0 and len(b) else 0
+        if zeros[0] > 12:
+            zeros[0] = 0
+            raise HarnessSpin()
+        return n
+
+    def rec_r(self, size=-1):
+        d = orig_r(self, size)
+        if size is not None and size >= 0:
+            rseen.append(len(d))
+        return d
+    WritableStream.write, ReadableStream.read = rec_w, rec_r
+    try:
+        for x in xfers:
+            del seen[:]
+            del rseen[:]
+            zeros[0] = 0
+            try:
+                if x[0] == "D":
+                    do_text_download(client, x[1], x[2], enc, buffering, x[3], x[4], x[5])
+                    results.append("ok")
+                else:
+                    results.append("ok " + cps(do_text_upload(client, x[1], x[2], enc, buffering, how)))
+            except Exception as e:
+                results.append(terr_name(e))
+            offers.append(list(seen))
+            reads.append(None if (rseen and rseen[-1] == 0) else len(rseen))
+    finally:
+        WritableStream.write, ReadableStream.read = orig_w, orig_r
+    return results, bus, server, offers, reads
+
+
+def txt_parts(op):
+    a = op.split(" ")
+    held = parse_held(a[1])
+    style = (a[2] == "1", a[3] == "1", a[4] == "1", c04.unnl(a[5]))
+    return a, held, style, a[6], a[7], [parse_txfer(s) for s in a[8].split(";")]
+
+
+def run_impl_txt(op):
+    a, held, style, enc, mode, xfers = txt_parts(op)
+    results, bus, server, offers, reads = run_txt(held, style, enc, mode, xfers)
+    commits = "&".join(f"{i}.{j}={c04.hx(b)}" for (i, j), b in server.commits) if server.commits else "-"
+    ill = "-" if server.illegal is None else server.illegal.replace(" ", "_")
+    out = f"{';'.join(results)} | {show_frames(bus.requests)} | {show_frames(bus.responses)} | {commits} | {ill}"
+    # the op carries what the buffered layers did when it was made; when they do something else now the answer is
+    # still judged by the oracle, the note makes the comparison with the model fail (changed behaviour)
+    for x, o, r in zip(xfers, offers, reads):
+        if x[0] == "D" and list(x[6]) != o:
+            return out + f" | OFFERS-CHANGED {c04.nl(o)}"
+        if x[0] == "U" and x[3] != r:
+            return out + f" | READS-CHANGED {'-' if r is None else r}"
+    return out
+
+
+def universal_newlines(text):
+    return text.replace("\r\n", "\n").replace("\r", "\n")
+
+
+def oracle_txt(op, out):
+    a, held, style, enc, mode, xfers = txt_parts(op)
+    size_ind, expedited, exp_size, _ = style
+    buffering, how = parse_tmode(mode)
+    parts = out.split(" | ")
+    results = parts[0].split(";")
+    exp_commits, judged_all = [], True
+    for x, r in zip(xfers, results):
+        if x[0] == "D":
+            text = "".join(x[3])
+            try:
+                data = text.encode(enc)          # strict
+            except UnicodeError:
+                data = None
+            if data is None:
+                if r.startswith("ok"):
+                    return (f"text-download-unencodable-completed: download of {text!r} through open(mode='w', "
+                            f"encoding={enc!r}) returned normally although the text cannot be encoded; the server "
+                            f"committed {parts[3]}")
+                # the error went to the caller: the transfer is not a completed one, what the server was left with
+                # is not the property's business; nothing after it in this history is judged
+                judged_all = False
+                break
+            if r == "err spin":
+                pre = "spin:expedited-declared-size-flushed-early" if buffering == 1 else "spin:text-other"
+                return (f"{pre} text download of {len(data)} byte(s) with declared size written as "
+                        f"{[t for t in x[3]]!r} through open(mode='w', buffering={buffering}): the text layer flushes "
+                        f"after a piece holding a line end, WritableStream.write answers 0 to the offer shorter than "
+                        f"the declared size and BufferedWriter.flush spins forever")
+            if r != "ok":
+                return (f"text-download-failed: download of {text!r} ({len(data)} byte(s) in {enc}) to a conformant "
+                        f"server failed: {r}")
+            held[(x[1], x[2])] = data
+            exp_commits.append(f"{x[1]}.{x[2]}={c04.hx(data)}")
+        else:
+            data = held.get((x[1], x[2]))
+            if data is None:
+                exp = f"err aborted {0x06020000}"
+            else:
+                if expedited and 1 <= len(data) <= 4 and not exp_size:
+                    data = data.ljust(4, b"\0")
+                try:
+                    exp = "ok " + cps(universal_newlines(data.decode(enc)))      # strict
+                except UnicodeError:
+                    exp = "err unicode"
+            if r != exp:
+                return (f"text-upload-wrong: upload through open(mode='r', encoding={enc!r}) read as {how} returned "
+                        f"{r}, the server holds {None if data is None else data.hex()} = {exp}")
+    if parts[4] != "-":
+        return f"the client emitted an illegal request frame: {parts[4]}"
+    if judged_all and parts[3] != ("&".join(exp_commits) if exp_commits else "-"):
+        return f"text-commit-wrong: server committed {parts[3]}, the caller wrote {'&'.join(exp_commits) or '-'}"
+    return None
+
+
+def finish_txt(held, style, enc, mode, xfers_raw):
+    """record what the buffered layers do (raw write sizes, raw reads) into the op"""
+    xfers = [parse_txfer(x) for x in xfers_raw]
+    _, _, _, offers, reads = run_txt(parse_held(held), style, enc, mode, xfers)
+    out = []
+    for x, o, r in zip(xfers, offers, reads):
+        if x[0] == "D":
+            out.append(f"D:{x[1]}:{x[2]}:{pieces_token(x[3])}:{int(x[4])}:{int(x[5])}:{c04.nl(o)}")
+        else:
+            out.append(f"U:{x[1]}:{x[2]}:{'-' if r is None else r}")
+    si, ex, es, cuts = style
+    return f"txt {held} {int(si)} {int(ex)} {int(es)} {c04.nl(cuts)} {enc} {mode} {';'.join(out)}"
+
+
+def refinish_txt(a, xs):
+    style = (a[2] == "1", a[3] == "1", a[4] == "1", c04.unnl(a[5]))
+    return finish_txt(a[1], style, a[6], a[7], xs)
+
+
+def shrink_txt(op):
+    a = op.split(" ")
+    xs = a[8].split(";")
+    if len(xs) > 1:
+        for i in range(len(xs)):
+            yield refinish_txt(a, xs[:i] + xs[i + 1:])
+    for i, x in enumerate(xs):
+        p = x.split(":")
+        if p[0] == "D":
+            pieces = parse_pieces(p[3])
+            cands = []
+            if len(pieces) > 1:
+                cands += [pieces[:j] + pieces[j + 1:] for j in range(len(pieces))]
+                cands.append(["".join(pieces)])
+            for j, t in enumerate(pieces):
+                if len(t) > 1:
+                    cands += [pieces[:j] + [t[:len(t) // 2]] + pieces[j + 1:], pieces[:j] + [t[len(t) // 2:]] + pieces[j + 1:],
+                              pieces[:j] + [t[:-1]] + pieces[j + 1:], pieces[:j] + [t[1:]] + pieces[j + 1:]]
+            for c in cands:
+                q = p[:3] + [pieces_token(c)] + p[4:]
+                yield refinish_txt(a, xs[:i] + [":".join(q)] + xs[i + 1:])
+            for k in (4, 5):
+                if p[k] == "1":
+                    yield refinish_txt(a, xs[:i] + [":".join(p[:k] + ["0"] + p[k + 1:])] + xs[i + 1:])
+    if a[1] != "-":
+        ents = a[1].split("&")
+        for i, e in enumerate(ents):
+            k, v = e.split("=")
+            b = c04.unhx(v)
+            for nb in (b[:len(b) // 2], b[len(b) // 2:], b[:-1], b[1:]):
+                if nb != b:
+                    yield refinish_txt(a[:1] + ["&".join(ents[:i] + [f"{k}={c04.hx(nb)}"] + ents[i + 1:])] + a[2:], xs)
+    if a[7] != "1024-all":
+        yield refinish_txt(a[:7] + ["1024-all"] + a[8:], xs)
+    if a[5] != "-":
+        yield refinish_txt(a[:5] + ["-"] + a[6:], xs)
+
 
 
 # ---------------------------------------------------------------------- generators
@@ -564,6 +857,154 @@ def rand_bytes(rng, n):
 
 def chunkings(rng, n):
     return [[], [1] * n, [3] * n, [7] * n, [8] * n, [rng.randint(1, 9) for _ in range(n + 1)]]
+
+
+# ---- text mode: alphabets per encoding (line ends are in every pool: TextIOWrapper's newline handling is part of
+# what is checked), characters outside each encoding, malformed byte strings
+POOL_ASCII = [0x41, 0x7A, 0x30, 0x20, 0x7E, 0x00, 0x7F, 0x09, 0x0A, 0x0D]
+POOL_LATIN = [0x80, 0xA0, 0xE9, 0xFC, 0xDF, 0xFF]
+POOL_BMP = [0x100, 0x7FF, 0x800, 0x20AC, 0xD7FF, 0xE000, 0xFFFD, 0xFFFF]
+POOL_ASTRAL = [0x10000, 0x1F600, 0x10FFFF]
+POOL_SURR = [0xD800, 0xDBFF, 0xDC00, 0xDFFF]
+INSIDE = {"ascii": POOL_ASCII, "latin-1": POOL_ASCII * 2 + POOL_LATIN, "utf-8": POOL_ASCII * 2 + POOL_LATIN + POOL_BMP
+          + POOL_ASTRAL}
+OUTSIDE = {"ascii": POOL_LATIN + POOL_BMP + POOL_ASTRAL + POOL_SURR, "latin-1": POOL_BMP + POOL_ASTRAL + POOL_SURR,
+           "utf-8": POOL_SURR}
+BAD_UTF8 = ["80", "bf", "c0", "c1", "c080", "c3", "c328", "e0", "e0a0", "e08080", "e09f80", "eda080", "edbfbf",
+            "e282", "e28228", "f0", "f09f98", "f0808080", "f08f8080", "f4908080", "f5808080", "ff", "fe", "f09f9828"]
+TEXT_HOWS = ["all", "all", "r1", "r2", "r5", "r100", "lines", "r1a", "r3a"]
+TEXT_BUFFERINGS = [1, 1, 2, 3, 7, 8, 1024]
+
+
+def rand_text(rng, enc, n, outside=0):
+    """n characters of the encoding's repertoire, `outside` of them replaced by characters it cannot represent"""
+    t = [rng.choice(INSIDE[enc]) for _ in range(n)]
+    for i in rng.sample(range(n), min(outside, n)):
+        t[i] = rng.choice(OUTSIDE[enc])
+    return "".join(chr(c) for c in t)
+
+
+def split_text(rng, text, how):
+    if how == "one":
+        return [text]
+    if how == "none":
+        return [] if not text else [text]
+    if how == "chars":
+        return list(text) or [""]
+    if how == "lines":
+        return text.splitlines(True) or [""]
+    out, i = [], 0
+    while i < len(text):
+        k = rng.choice([0, 1, 1, 2, 3, 5, 9])
+        out.append(text[i:i + k])
+        i += k
+    return out or [""]
+
+
+def text_dl(idx, sub, pieces, sized, force):
+    return f"D:{idx}:{sub}:{pieces_token(pieces)}:{int(sized)}:{int(force)}:-"
+
+
+def rand_held_text(rng, enc, n):
+    """bytes for a text upload: mostly the encoding of a text, sometimes damaged"""
+    data = rand_text(rng, enc, n).encode(enc)
+    kind = rng.random()
+    if kind < 0.25 and enc != "latin-1":
+        bad = bytes.fromhex(rng.choice(BAD_UTF8)) if enc == "utf-8" else bytes([rng.randrange(0x80, 0x100)])
+        pos = rng.randint(0, len(data))
+        data = data[:pos] + bad + data[pos:]
+    elif kind < 0.35:
+        data = rand_bytes(rng, max(n, 1))
+    elif kind < 0.45 and data:
+        data = data[:rng.randint(0, len(data) - 1)]              # cut anywhere, also inside a sequence
+    return data
+
+
+def gen_txt_ops(tier, rng):
+    default_style = (True, True, True, [])
+    quick = tier == "quick"
+    lens = list(range(0, 65)) + ([] if quick else [100, 1000, 2730, 2731, 4095, 4096, 4097, 8191, 8192, 8193, 10000])
+    # downloads: every length x encoding; split / buffering / declared / forced vary
+    for n in lens:
+        for enc in TEXT_ENCODINGS:
+            idx, sub = rng.choice(MUXES)
+            reps = 3 if n <= 12 else 1
+            if not quick:
+                reps = 8 if n <= 12 else (3 if n <= 64 else 1)
+            for _ in range(reps):
+                text = rand_text(rng, enc, n)
+                pieces = split_text(rng, text, rng.choice(["one", "chars", "lines", "rand", "rand"]) if n <= 64
+                                    else rng.choice(["one", "lines", "rand"]))
+                mode = f"{rng.choice(TEXT_BUFFERINGS)}-all"
+                yield finish_txt("-", default_style, enc, mode,
+                                 [text_dl(idx, sub, pieces, rng.random() < 0.5, rng.random() < 0.3)])
+            if 1 <= n <= 24 or (not quick and n <= 64):
+                # the same with characters the encoding cannot represent: the caller must get the error; no size
+                # is declared (there is no payload length to declare) except the number of bytes handed over
+                text = rand_text(rng, enc, n, outside=rng.choice([1, 1, 2, n]))
+                pieces = split_text(rng, text, rng.choice(["one", "chars", "rand"]))
+                mode = f"{rng.choice(TEXT_BUFFERINGS)}-all"
+                yield finish_txt("-", default_style, enc, mode,
+                                 [text_dl(idx, sub, pieces, rng.random() < 0.2, rng.random() < 0.3)])
+    # no write at all, only empty writes
+    for enc in TEXT_ENCODINGS:
+        for pieces in ([], [""], ["", ""]):
+            for sized in (False, True):
+                yield finish_txt("-", default_style, enc, f"{rng.choice(TEXT_BUFFERINGS)}-all",
+                                 [text_dl(0x2000, 0, pieces, sized, False)])
+    # expedited sizes written in pieces, line ends at every place, line buffering and not
+    for text in ["a\n", "\nb", "a\nb", "ab\n", "a\rb", "\n\n\n", "ab\nc", "a\nbc", "abc\n", "a\r\nb", "abcd", "\n"]:
+        for how in ("one", "chars", "lines"):
+            for buffering in (1, 2, 1024):
+                for sized in (True, False):
+                    yield finish_txt("-", default_style, "ascii", f"{buffering}-all",
+                                     [text_dl(0x2000, 0, split_text(rng, text, how), sized, False)])
+    # uploads: every length x encoding x way of reading x answer style
+    for n in lens:
+        for enc in TEXT_ENCODINGS:
+            idx, sub = rng.choice(MUXES)
+            for _ in range((2 if n <= 16 else 1) if quick else (6 if n <= 16 else 2)):
+                data = rand_held_text(rng, enc, n)
+                style = (rng.random() < 0.7, rng.random() < 0.7, rng.random() < 0.8,
+                         rng.choice([[], [1] * min(n + 1, 200), [rng.randint(1, 7) for _ in range(min(n + 1, 200))]]))
+                mode = f"{rng.choice(TEXT_BUFFERINGS)}-{rng.choice(TEXT_HOWS)}"
+                yield finish_txt(f"{idx}.{sub}={c04.hx(data)}", style, enc, mode, [f"U:{idx}:{sub}:-"])
+    # every malformed UTF-8 form at the start, in the middle, at the end, across a segment boundary
+    for bad in BAD_UTF8:
+        for pre, post in (("", ""), ("abc", "de"), ("abcdef", "ghijklmnop"), ("abcdefg", ""), ("", "xyz")):
+            data = pre.encode() + bytes.fromhex(bad) + post.encode()
+            mode = f"{rng.choice(TEXT_BUFFERINGS)}-{rng.choice(TEXT_HOWS)}"
+            yield finish_txt(f"8192.0={c04.hx(data)}", (True, True, True, [rng.randint(1, 7) for _ in range(8)]),
+                             "utf-8", mode, ["U:8192:0:-"])
+    # line ends of every kind at segment and chunk boundaries, read in every way
+    for data in [b"ab\r\ncd\re\n\rf", b"abcdef\r\nghijkl\r", b"abcdefg\r", b"abcdef\r", b"\r", b"\n", b"\r\n", b"\r\r\n\n",
+                 b"abcdefg\nabcdefg\rabcdefg\r\n"]:
+        for how in TEXT_HOWS[1:]:
+            for enc in TEXT_ENCODINGS:
+                yield finish_txt(f"8192.0={c04.hx(data)}", (True, True, True, [rng.randint(1, 7) for _ in range(8)]),
+                                 enc, f"{rng.choice(TEXT_BUFFERINGS)}-{how}", ["U:8192:0:-"])
+    # what was written is what is read: histories of text transfers on one client
+    for _ in range(120 if quick else 1200):
+        enc = rng.choice(TEXT_ENCODINGS)
+        xs, have = [], []
+        for _ in range(rng.randint(2, 5)):
+            if rng.random() < 0.6 or not have:
+                idx, sub = rng.choice(MUXES[:3])
+                n = rng.choice([0, 1, 2, 3, 4, 5, 7, 8, 14, rng.randint(0, 40)])
+                pieces = split_text(rng, rand_text(rng, enc, n), rng.choice(["one", "chars", "lines", "rand"]))
+                have.append((idx, sub))
+                xs.append(text_dl(idx, sub, pieces, rng.random() < 0.6, rng.random() < 0.3))
+            else:
+                idx, sub = rng.choice(have)
+                xs.append(f"U:{idx}:{sub}:-")
+        if rng.random() < 0.25:
+            # … ending with a text that cannot be encoded
+            idx, sub = rng.choice(MUXES[:3])
+            n = rng.randint(1, 12)
+            xs.append(text_dl(idx, sub, split_text(rng, rand_text(rng, enc, n, outside=1), "rand"), False,
+                              rng.random() < 0.3))
+        style = (rng.random() < 0.5, rng.random() < 0.7, True, [rng.randint(1, 7) for _ in range(10)])
+        yield finish_txt("-", style, enc, f"{rng.choice(TEXT_BUFFERINGS)}-{rng.choice(TEXT_HOWS)}", xs)
 
 
 def gen_ops(tier, rng):
@@ -644,11 +1085,25 @@ def gen_ops(tier, rng):
                 xs.append(f"u:{idx}:{sub}:x")
         style = (rng.random() < 0.5, rng.random() < 0.7, True, [rng.randint(1, 7) for _ in range(10)])
         yield finish_op("-", style, rng.choice(["raw", "raw", "b7", "b8"]), xs)
+    # text mode with real encodings, characters outside them, line ends, every way of reading
+    yield from gen_txt_ops(tier, rng)
 
 
 CORPUS = [
     "seq 8192.0=0102030405060708 1 1 1 - api u:8192:0:12",       # F9: TIME_OF_DAY entry was cut to 1 byte
     "seq 8192.0=01020304 1 1 1 - api u:8192:0:32",                # F9: unknown type 0x20
+    # text mode: 'Grüße 25 °C' cannot be written as ascii (the caller must get the error) …
+    "txt - 1 1 1 - ascii 1024-all D:8192:0:47.72.fc.df.65.20.32.35.20.b0.43:0:0:-",
+    "txt - 1 1 1 - ascii 1-all D:8192:0:47.72/fc.df.65:0:0:2",
+    # … nor read as ascii; as latin-1 and utf-8 it goes through unchanged
+    "txt 8192.0=4772fcdf6520323520b043 1 1 1 - ascii 1024-all U:8192:0:-",
+    "txt 8192.0=4772fcdf6520323520b043 1 1 1 - ascii 1024-r3 U:8192:0:1",
+    "txt 8192.0=4772fcdf6520323520b043 1 1 1 - latin-1 1024-all U:8192:0:-",
+    "txt - 1 1 1 - utf-8 1024-all D:8192:0:47.72.fc.df.65.20.32.35.20.b0.43:1:0:14,7;U:8192:0:-",
+    # an expedited size written in pieces through a line-buffered text stream (flushed before it is complete)
+    "txt - 1 1 1 - ascii 1-all D:8192:0:61.a/62:1:0:2,1",
+    # line ends: written as they are, read back as universal newlines
+    "txt - 1 1 1 - ascii 1-lines D:8192:0:61.d.a/62.d/63.a:0:0:3,2,2;U:8192:0:-",
 ]
 
 LEVEL_TEXT = ("Lean 4 theorems about the client model composed with an independent strict server specification: for "
@@ -656,8 +1111,10 @@ LEVEL_TEXT = ("Lean 4 theorems about the client model composed with an independe
               "offer sizes) a completed download commits exactly the payload and the server flags no illegal frame; "
               "for every held value and every answer style / cut list an upload returns exactly the value (the "
               "declared number of leading bytes for fixed-size numeric entries); transfers back-to-back on one "
-              "client; abort frames decode to the received code; tied to the code by differential runs over lengths "
-              "x chunkings x buffering modes x styles")
+              "client; abort frames decode to the received code; text mode: strict codec (decode after encode is the "
+              "identity, decode is exact), a text download commits exactly the encoded text or the caller gets the "
+              "error, a text upload returns the newline-translated decoding of the held bytes or raises; tied to the "
+              "code by differential runs over lengths x chunkings x buffering modes x styles x encodings x alphabets")
 LEVEL_NOTE = ("trusted: Lean kernel + standard axioms; io buffering classes and queue.Queue are assumed/modelled; the "
               "strict server is my reading of CiA 301, written twice (Lean, Python); correspondence bounded by its "
               "generator")
